@@ -60,7 +60,13 @@ def gen_daqmx_spec(rng, max_segments=4, max_channels=5, wide_p=0.06):
                 if widths[b] > 200 and rng.random() < 0.6:
                     off = rng.randint(max(0, min(250, widths[b] - fmt.size_of(t))), widths[b] - fmt.size_of(t))
             scalers.append({'type': t, 'buffer': b, 'offset': off, 'bitmap': rng.choice([0, 0, 1, 255]), 'id': sid})
-        chans.append({'path': p, 'kind': kind, 'scalers': scalers, 'multi': multi})
+        extra = None
+        floats = [sc['id'] for sc in scalers if sc['type'] in ('f64', 'f32')]
+        if kind == 'format' and floats and rng.random() < 0.3:
+            # a further scale on top of one floating point scaler (a strain gauge, a linear calibration): reading scaled
+            # data must leave the raw scaler values what the file holds
+            extra = {'kind': rng.choice(['Strain', 'Strain', 'Linear']), 'src': rng.choice(floats)}
+        chans.append({'path': p, 'kind': kind, 'scalers': scalers, 'multi': multi, 'extra': extra})
     spec = {'version': rng.choice([4712, 4713]), 'names': names, 'segments': []}
     nseg = rng.randint(1, max_segments)
     endian_mode = rng.choice(['<', '<', '>', 'mixed'])
@@ -100,6 +106,16 @@ def gen_daqmx_spec(rng, max_segments=4, max_channels=5, wide_p=0.06):
                     if k == 0 or rng.random() < 0.3:
                         nscales = max(s['id'] for s in c['scalers']) + 1
                         L['props'] = [['NI_Number_Of_Scales', 'u32', nscales], ['NI_Scaling_Status', 'str', 'unscaled']]
+                        if c.get('extra'):
+                            from .. import scalemodel
+                            L['props'][0] = ['NI_Number_Of_Scales', 'u32', nscales + 1]
+                            if c['extra']['kind'] == 'Linear':
+                                pfx = 'NI_Scale[%d]_' % nscales
+                                L['props'] += [[pfx + 'Scale_Type', 'str', 'Linear'], [pfx + 'Linear_Slope', 'f64', scalemodel.f64(2.0)],
+                                               [pfx + 'Linear_Y_Intercept', 'f64', scalemodel.f64(1.0)],
+                                               [pfx + 'Linear_Input_Source', 'u32', c['extra']['src']]]
+                            else:
+                                L['props'] += scalemodel.sensor_scale_props(rng, nscales, c['extra']['src'], kind='Strain')[1]
                 else:
                     L['index'] = 'same'
                 listed.append(L)
@@ -338,6 +354,13 @@ def execute(case):
             if v is not None:
                 res.violations.append(v)
             if len(res.violations) > 3:
+                break
+        # after all of the above (scaled reads included) the raw scaler values are still what the file holds
+        for path, full in fulls.items():
+            g2, exc, eo = ops.try_op(lambda: ops.norm(ops.chan(eager, w, path).raw_scaler_data))
+            if exc is None and g2 != full:
+                res.violations.append(V('C11.scaler-data', '%s: raw_scaler_data no longer equals the bytes of the file after scaled data '
+                                        'was read: %s expected %s' % (path, _lazy._short(g2), _lazy._short(full)), after_scaled_read=True))
                 break
         lazy.close()
         # crash points of the last segment
